@@ -364,8 +364,10 @@ nni_url_parse_inline_inner(nng_url *url, const char *raw)
 	// if needed
 
 	if (strlen(s) >= sizeof(url->u_static)) {
-		url->u_buffer = nni_strdup(s);
-		url->u_bufsz  = strlen(s) + 1;
+		if ((url->u_buffer = nni_strdup(s)) == NULL) {
+			return (NNG_ENOMEM);
+		}
+		url->u_bufsz = strlen(s) + 1;
 	} else {
 		snprintf(url->u_static, sizeof(url->u_static), "%s", s);
 		url->u_buffer = url->u_static;
